@@ -1,88 +1,92 @@
 #!/usr/bin/env python3
-"""tools/seed_verify.py <Cxx> <m1|m2> [extra checks...]
+"""tools/seed_verify.py confirm <Cxx> <mN>     (parallelisable: SV_SLOT=k selects the cargo target dir)
+   tools/seed_verify.py check   <Cxx> <mN> [extra checks...]   (sequential: patches /repo itself, then restores it)
 Confirms a seeded change produced by an independent agent (/tmp/mut_out/Cxx/mN), then runs the checks against it:
- 1. scratch worktree of /repo HEAD + patch: builds, whole test suite passes;
- 2. the demonstration fails with the change and passes without it;
- 3. patch applied to /repo itself, `./check Cxx` (and extra checks) run, /repo restored (git checkout -- .);
- 4. kept under /verif/seeded/Cxx-mN/ with meta.json (what it needs to manifest, what was run, which check caught it)."""
+ confirm: scratch worktree of /repo HEAD + patch: whole test suite passes; the demonstration fails with the change and
+          passes without it;
+ check:   patch applied to /repo itself, `./check Cxx` (and extra checks) run, /repo restored (git checkout -- .);
+          kept under /verif/seeded/Cxx-mN/ with meta.json (what it needs, what was run, which check caught it)."""
 import json, os, re, shutil, subprocess, sys, time
 V = os.path.dirname(os.path.dirname(os.path.abspath(__file__)))
-pid, mn = sys.argv[1], sys.argv[2]
-extra = sys.argv[3:]
+phase, pid, mn = sys.argv[1], sys.argv[2], sys.argv[3]
+extra = sys.argv[4:]
 src = f"/tmp/mut_out/{pid}/{mn}"
 wt = f"/tmp/sv_wt_{pid}_{mn}"
-env = dict(os.environ, CARGO_NET_OFFLINE="true", CARGO_TARGET_DIR="/tmp/sv_target", WT=wt)
+env = dict(os.environ, CARGO_NET_OFFLINE="true", CARGO_TARGET_DIR="/tmp/sv_target_" + os.environ.get("SV_SLOT", "0"), WT=wt)
 
-def sh(cmd, cwd=None, timeout=3600, e=None):
+
+def sh(cmd, cwd=None, timeout=5400, e=None):
     p = subprocess.run(cmd, shell=True, cwd=cwd, env=e or env, stdout=subprocess.PIPE, stderr=subprocess.STDOUT, timeout=timeout)
     return p.returncode, p.stdout.decode("utf-8", "replace")
 
+
 meta = json.load(open(f"{src}/meta.json"))
-res = {"property": pid, "mutation": mn, "summary": meta.get("summary"), "needs": meta.get("needs"), "agent_verified": meta.get("verified")}
-sh(f"git -C /repo worktree remove --force {wt}")
-rc, out = sh(f"git -C /repo worktree add --detach {wt} HEAD")
-assert rc == 0, out
-shutil.copy("/repo/Cargo.lock", f"{wt}/Cargo.lock")
-rc, out = sh(f"git apply {src}/patch.diff", cwd=wt)
-if rc != 0:
-    rc, out = sh(f"git apply --3way {src}/patch.diff", cwd=wt)
-res["patch_applies"] = rc == 0
-if rc != 0:
-    print("PATCH DOES NOT APPLY", out[-500:])
+if phase == "confirm":
+    res = {"property": pid, "mutation": mn, "summary": meta.get("summary"), "needs": meta.get("needs"), "agent_verified": meta.get("verified")}
     sh(f"git -C /repo worktree remove --force {wt}")
-    json.dump(res, open(f"/tmp/mut_out/{pid}/{mn}/verify.json", "w"), indent=1)
-    sys.exit(1)
-sh(f"git diff > /tmp/mut_out/{pid}/{mn}/patch_rebased.diff", cwd=wt)
-t0 = time.time()
-rc, out = sh("cargo test --workspace --no-fail-fast --offline 2>&1 | grep -E '^test result|FAILED|error(\\[|:)' | sort | uniq -c", cwd=wt)
-passed = sum(int(m.group(1)) * int(m.group(2)) for m in re.finditer(r"\s*(\d+) test result: ok\. (\d+) passed", out))
-failed = "FAILED" in out or "error" in out or re.search(r"[1-9]\d* failed", out)
-res["suite"] = {"passed_incl_doctests": passed, "failed": bool(failed), "secs": round(time.time() - t0)}
-print("suite:", res["suite"])
-# demo with / without
-demo = f"{src}/demo"
-def run_demo():
-    if os.path.exists(f"{demo}/run.sh"):
-        return sh(f"bash run.sh", cwd=demo, timeout=3600)
-    return sh(meta.get("demo_cmd", "false"), cwd=demo, timeout=3600)
-rc1, o1 = run_demo()
-res["demo_with_mutation_rc"] = rc1
-sh("git checkout -- .", cwd=wt)
-rc2, o2 = run_demo()
-res["demo_without_rc"] = rc2
-print("demo with:", rc1, "without:", rc2)
-if rc2 != 0:
-    print(o2[-1500:])
-sh(f"git -C /repo worktree remove --force {wt}")
-# run the checks against /repo with the patch
+    rc, out = sh(f"git -C /repo worktree add --detach {wt} HEAD")
+    assert rc == 0, out
+    shutil.copy("/repo/Cargo.lock", f"{wt}/Cargo.lock")
+    rc, out = sh(f"git apply {src}/patch.diff", cwd=wt)
+    if rc != 0:
+        rc, out = sh(f"git apply --3way {src}/patch.diff", cwd=wt)
+    res["patch_applies"] = rc == 0
+    if rc != 0:
+        print(pid, mn, "PATCH DOES NOT APPLY", out[-300:])
+        sh(f"git -C /repo worktree remove --force {wt}")
+        json.dump(res, open(f"{src}/verify.json", "w"), indent=1)
+        sys.exit(1)
+    sh(f"git diff > {src}/patch_rebased.diff", cwd=wt)
+    t0 = time.time()
+    rc, out = sh("cargo test --workspace --no-fail-fast --offline 2>&1 | grep -E '^test result|FAILED|^error' | sort | uniq -c", cwd=wt)
+    passed = sum(int(m.group(1)) * int(m.group(2)) for m in re.finditer(r"\s*(\d+) test result: ok\. (\d+) passed", out))
+    failed = ("FAILED" in out) or ("error" in out) or bool(re.search(r"[1-9]\d* failed", out)) or passed < 85
+    res["suite"] = {"passed_incl_doctests": passed, "failed": bool(failed), "secs": round(time.time() - t0)}
+    demo = f"{src}/demo"
+
+    def run_demo():
+        if os.path.exists(f"{demo}/run.sh"):
+            return sh("bash run.sh", cwd=demo)
+        return sh(meta.get("demo_cmd", "false"), cwd=demo)
+    rc1, o1 = run_demo()
+    sh("git checkout -- .", cwd=wt)
+    rc2, o2 = run_demo()
+    res["demo_with_mutation_rc"], res["demo_without_rc"] = rc1, rc2
+    res["confirmed"] = (not failed) and rc1 != 0 and rc2 == 0
+    if not res["confirmed"]:
+        res["demo_without_tail"] = o2[-800:]
+        res["demo_with_tail"] = o1[-400:]
+    sh(f"git -C /repo worktree remove --force {wt}")
+    json.dump(res, open(f"{src}/verify.json", "w"), indent=1)
+    print(pid, mn, "suite", res["suite"], "demo with/without", rc1, rc2, "confirmed", res["confirmed"])
+    sys.exit(0)
+
+# ---- check phase
+res = json.load(open(f"{src}/verify.json"))
 st = subprocess.run("git -C /repo status --porcelain", shell=True, stdout=subprocess.PIPE).stdout.decode().strip()
 assert st == "", "/repo not clean: " + st
-rc, out = sh(f"git -C /repo apply /tmp/mut_out/{pid}/{mn}/patch_rebased.diff")
+rc, out = sh(f"git -C /repo apply {src}/patch_rebased.diff")
 assert rc == 0, out
 res["checks"] = {}
+d = f"{V}/seeded/{pid}-{mn}"
+os.makedirs(d, exist_ok=True)
 try:
     for c in [pid] + extra:
         t0 = time.time()
         rc, out = sh(f"./check {c}", cwd=V, timeout=7200, e=dict(os.environ))
         lines = [l for l in out.split("\n") if l.startswith(("VIOLATION", "OK", "KNOWN", "HARNESS"))]
-        res["checks"][c] = {"rc": rc, "lines": lines[:6], "secs": round(time.time() - t0)}
-        print(c, rc, lines[:4])
+        res["checks"][c] = {"rc": rc, "lines": [l[:300] for l in lines[:6]], "secs": round(time.time() - t0)}
+        print(pid, mn, c, rc, [l[:160] for l in lines[:3]])
         for l in lines:
             m = re.search(r"replay=(\S+)", l)
             if m and os.path.exists(m.group(1)):
-                os.makedirs(f"{V}/seeded/{pid}-{mn}", exist_ok=True)
-                shutil.copy(m.group(1), f"{V}/seeded/{pid}-{mn}/replay_{c}.json")
+                shutil.copy(m.group(1), f"{d}/replay_{c}.json")
 finally:
     sh("git -C /repo checkout -- .")
-    # restore evidence of the unchanged tree is done by the caller re-running the check
-ok = (not res["suite"]["failed"]) and rc1 != 0 and rc2 == 0
-res["confirmed"] = bool(ok)
 res["caught_by"] = [c for c, r in res["checks"].items() if r["rc"] == 1]
-d = f"{V}/seeded/{pid}-{mn}"
-os.makedirs(d, exist_ok=True)
-shutil.copy(f"/tmp/mut_out/{pid}/{mn}/patch_rebased.diff", f"{d}/patch.diff")
+shutil.copy(f"{src}/patch_rebased.diff", f"{d}/patch.diff")
 if os.path.exists(f"{d}/demo"):
     shutil.rmtree(f"{d}/demo")
-shutil.copytree(demo, f"{d}/demo", ignore=shutil.ignore_patterns("target", "Cargo.lock"))
+shutil.copytree(f"{src}/demo", f"{d}/demo", ignore=shutil.ignore_patterns("target", "Cargo.lock", "*.log"))
 json.dump(res, open(f"{d}/meta.json", "w"), indent=1)
-print(json.dumps({k: res[k] for k in ("confirmed", "caught_by")}))
+print(json.dumps({"confirmed": res.get("confirmed"), "caught_by": res["caught_by"]}))
